@@ -216,6 +216,20 @@ def call_value(ex, st, f, pos, kw, node=None, star=None, dstar=None):
         if sN is not None:
             outs.append((sN, ('exc', sN.exc_obj('TypeError'))))       # calling None / a number / a string
         if sR is not None:
+            # a callable picked from a container (dispatch table): case split over the callables created on this path it may be equal to
+            cands = [(term, info) for tid, (term, info) in list(sR.objs.items())
+                     if isinstance(info, Bound) and term.sort() == f.sort() and z3.is_app(term) and term.decl().name() == 'ref' and sR.sat(f == term)]
+            if cands and ex.hook('call_unknown', sR, f, pos, kw, node, star, dstar) is None:
+                rest = sR
+                for term, info in cands:
+                    if rest is None:
+                        break
+                    sEq, rest = ex.fork(rest, f == term)
+                    if sEq is not None:
+                        sEq.note(f, info); outs += call_value(ex, sEq, term, pos, kw, node, star, dstar)
+                if rest is not None:
+                    raise Unsupported('call of a value that is not a known callable: ' + (ast.unparse(node) if node is not None else '?'))
+                return outs
             r = ex.hook('call_unknown', sR, f, pos, kw, node, star, dstar)
             if r is None:
                 raise Unsupported('call of a value that is not a known callable: ' + (ast.unparse(node) if node is not None else '?'))
